@@ -4,6 +4,10 @@ pub mod c03;
 pub mod c04;
 pub mod c05;
 pub mod c14;
+pub mod c15;
+pub mod c16;
+pub mod c17;
+pub mod cmd;
 pub mod oligo_exec;
 pub mod c06;
 pub mod c07;
@@ -187,6 +191,41 @@ pub fn all() -> Vec<PropInfo> {
         abort_is_violation: false,
     },
     PropInfo {
+        id: "C15",
+        run: c15::run,
+        replay: c15::replay,
+        shards: (8, 16),
+        watchdog: (900, 7200),
+        rule: "a generated in-range command (every subcommand, presets, -c/--counts, -H, -t 0..16, -k/-m/-w/-s/-c/-v/-m values, --acgt, --alt-input, stdin) over generated inputs is executed through the built executable and related to a second execution: the library called with the documented meaning of the options (differential), another preset (equal after delimiter replacement), header toggled (exactly one more line), another thread count (same bytes / same line multiset), counts toggled (per-row normalisation within 5e-7), --acgt toggled (same table after decoding), stdin instead of a file; \
+               plus a fixed list of values just outside every documented range (diagnostic on stderr, no output location created, no panic); non-trivial = >= 2 records and >= 2 options differing from their defaults; distinct by hash of the case",
+        assumptions: &["exit status of refusals is not constrained (the statement does not; the w <= m refusal exits 0)", "comp cgr is always given an explicit -v (its default size is not documented)"],
+        abort_is_violation: false,
+    },
+    PropInfo {
+        id: "C16",
+        run: c16::run,
+        replay: c16::replay,
+        shards: (8, 16),
+        watchdog: (900, 7200),
+        rule: "degenerate-shape record lists (0 records; lengths 0, 1, k-1, k, k+1, m, w; all-ambiguous; ambiguous first/last; mixtures; FASTA and, when no record is empty, FASTQ; all containers) x every subcommand with accepted options, through the executable (documented ranges) and through the library (k, m from 1; both oligo writers; cov flush modes); \
+               validity predicate: exit 0 / no panic / no error, record-oriented outputs have exactly one row per record of the right width, every number finite, every minimiser run at least a window long, free of ambiguous bytes and containing its minimiser (no placeholder), counts > 0 with codes < 4^k; whole-sequence CGR may refuse records with foreign bytes; \
+               non-trivial = the input contains a boundary shape relevant to the subcommand's parameter; distinct by hash of the case",
+        assumptions: &["an executable run exceeding 120 s is reported as inconclusive, not as a violation"],
+        abort_is_violation: false,
+    },
+    PropInfo {
+        id: "C17",
+        run: c17::run,
+        replay: c17::replay,
+        shards: (8, 16),
+        watchdog: (900, 7200),
+        rule: "histories of 2-3 runs (any subcommands writing the same kind of location, different inputs, k, threads; library runs of ctr/cov with input-derived memory ceilings and merge(false) so that stale temp_kmers.* of more chunks/partitions remain; 15% repeat the same command) sharing one output path or directory; \
+               the result files after the last run must equal those of the same run in a fresh location (bytes for ordered outputs, sorted lines for counts tables and minimiser listings); \
+               non-trivial = the earlier run left a longer result or stale temp files; distinct by hash of the case",
+        assumptions: &["a history whose step fails is skipped (clean termination is C16's subject)", "file-based and directory-based subcommands are not mixed in one history"],
+        abort_is_violation: false,
+    },
+    PropInfo {
         id: "C18",
         run: c18::run,
         replay: c18::replay,
@@ -201,6 +240,15 @@ pub fn all() -> Vec<PropInfo> {
 
 pub fn find(id: &str) -> Option<PropInfo> {
     all().into_iter().find(|p| p.id == id)
+}
+
+/// executable runs stopped by the per-run watchdog make the check inconclusive (exit 2), never a violation
+pub fn timeouts_inconclusive(ctx: &mut Ctx) {
+    if let Some(n) = ctx.out.classes.get("cli-timeout").copied() {
+        if n > 0 {
+            ctx.out.inconclusive.push(format!("{} executable runs exceeded the per-run watchdog", n));
+        }
+    }
 }
 
 pub fn oracle_server() {
